@@ -52,7 +52,7 @@ func recC13(c *ctx) {
 		rb.RekeyWithWitnessBytes("w", w)
 		emit(vt.Ev{"op": "rekey", "t": 2, "label": vt.B([]byte("w")), "data": vt.B(w)})
 		rnd := r.Bytes(32)
-		rng, _ := rb.Finalize(bytes.NewReader(rnd))
+		rng, _ := rb.Finalize(r.Entropy(rnd))
 		emit(vt.Ev{"op": "finalize", "t": 2, "rnd": vt.B(rnd)})
 		if L%3 == 0 { // a zero-length read is an operation of its own (framing is still absorbed)
 			_, _ = rng.Read([]byte{})
@@ -128,7 +128,7 @@ func recC13(c *ctx) {
 					emit(vt.Ev{"op": "rekey", "t": id, "label": vt.B(label), "data": vt.B(w)})
 				} else {
 					rnd := r.Bytes(32)
-					rng, err := rb.Finalize(bytes.NewReader(rnd))
+					rng, err := rb.Finalize(r.Entropy(rnd))
 					if err != nil {
 						panic(err)
 					}
